@@ -12,8 +12,10 @@ VARIABLES l,        \* next event
           drift,    \* real counters minus reference recount, per field
           taint,    \* fields whose comparison is suspended for the rest of the script (after a known finding)
           bad,      \* "none" or a description of the first unexplained counter drift
-          rsv       \* C18: status vector after the first of a run of consecutive resyncs (<<>> = none)
-tvars == <<allvars, l, drift, taint, bad, rsv>>
+          rsv,      \* C18: status vector after the first of a run of consecutive resyncs (<<>> = none)
+          cntTaint  \* C02: the history left the class on which ObjectsNumber (phy - garbage counter) is exact
+VARIABLE cntBad
+tvars == <<allvars, l, drift, taint, bad, rsv, cntTaint, cntBad>>
 
 SetOf(t) == {t[k] : k \in 1..Len(t)}
 Fields == {"phy", "root", "ts", "lock", "link", "size"}
@@ -100,7 +102,7 @@ ToEvent(e) ==
     [] e.ev = "Revive" -> [ev |-> "Revive", a |-> e.a]
     [] OTHER -> [ev |-> e.ev]
 
-TraceInit == Init /\ l = 1 /\ drift = Zero /\ taint = {} /\ bad = "none" /\ rsv = <<>>
+TraceInit == Init /\ l = 1 /\ drift = Zero /\ taint = {} /\ bad = "none" /\ rsv = <<>> /\ cntTaint = FALSE /\ cntBad = "none"
 
 TraceNext ==
   /\ l <= Len(Trace)
@@ -108,11 +110,11 @@ TraceNext ==
   /\ LET e == Trace[l] IN
      IF e.ev = "Init"
      THEN /\ S' = S0 /\ epoch' = 0 /\ res' = "init" /\ processed' = 0 /\ lastEv' = "Init"
-          /\ drift' = Zero /\ taint' = {} /\ bad' = bad /\ rsv' = <<>>
+          /\ drift' = Zero /\ taint' = {} /\ bad' = bad /\ rsv' = <<>> /\ cntTaint' = FALSE /\ cntBad' = cntBad
      ELSE IF e.ev = "List"
      THEN \* C06: paged listing from an arbitrary cursor; state unchanged, no view recorded
           /\ PagesOK(e) /\ lastEv' = "List" /\ res' = "ok"
-          /\ UNCHANGED <<S, epoch, processed, drift, taint, bad, rsv>>
+          /\ UNCHANGED <<S, epoch, processed, drift, taint, bad, rsv, cntTaint, cntBad>>
      ELSE /\ IF e.ev = "Resync"
              THEN S' = Result(e).s /\ UNCHANGED <<epoch, processed>>
              ELSE Step(ToEvent(e))
@@ -131,6 +133,15 @@ TraceNext ==
                    => PrintT("KF {\"C18-child-after-parent-tombstone-orphaned\"}"))
           /\ ((e.ev = "Resync" /\ e.res = "err" /\ KF_ResyncAbort(S)) => PrintT("KF {\"C18-resync-aborts\"}"))
           /\ ViewMatches(S', epoch', e.v)
+          \* C02, ObjectsNumber: exact as long as every garbage mark names a physically stored, not yet marked
+          \* object and nothing was revived / no container removed (finding C02-objects-number otherwise)
+          /\ cntTaint' = (IF e.ev = "Resync" THEN FALSE ELSE
+                           \/ cntTaint \/ taint # {} \/ e.ev \in {"InhumeCnr", "Revive"}
+                           \/ \E i \in IDs : S'.garb[i] # "none" /\ S'.stored[i] # "phy"
+                           \/ (e.ev = "Put" /\ (S.garb[e.o] # "none" \/ KFClasses(S, epoch, ToEvent(e)) # {})))
+          /\ (cntTaint' /\ ~cntTaint) => PrintT("KF {\"C02-objects-number\"}")
+          /\ cntBad' = IF cntBad = "none" /\ ~cntTaint' /\ e.v.cnt # [c \in Cnrs |-> RefCnrCount(S', c)]
+                        THEN ToString(<<"ObjectsNumber differs from the number of stored unmarked objects at event", l, e.v.cnt>>) ELSE cntBad
           /\ LET d == DriftOf(S', e.v)
                  kf == KFClasses(S, epoch, ToEvent(e))
                  changed == {f \in Fields : d[f] # drift[f]} \ taint
@@ -148,6 +159,7 @@ TraceNext ==
 TraceSpec == TraceInit /\ [][TraceNext]_tvars
 TraceNotStuck == l <= Len(Trace) => (ENABLED TraceNext \/ (PrintT("EXPECT " \o ToJson(Expected(Trace[l]))) /\ FALSE))
 C02_CountersMatchRecount == bad = "none"
+C02_ObjectsNumberExact == cntBad = "none"
 \* C18: every enumeration order of the blobs rebuilds the same object statuses (outside the listed conflict class)
 C18_OrderIndependent == (lastEv = "Resync" /\ rsv # <<>>) => (StatusVec(S, epoch) = rsv \/ KF_ResyncConflict(S, epoch) \/ KF_ResyncAbort(S) \/ KF_ResyncOrphan(S))
 \* C18: after a rebuild GC can reclaim every removed object: every tombstoned id with a blob is in the garbage listing
